@@ -6,6 +6,7 @@ import (
 	"context"
 	"log/slog"
 
+	dto "github.com/prometheus/client_model/go"
 	"github.com/prometheus/common/model"
 
 	"github.com/prometheus/alertmanager/alert"
@@ -33,4 +34,15 @@ func (g *VerifGroup) Get(fp model.Fingerprint) (*alert.Alert, error) { return g.
 func (g *VerifGroup) Stop() {
 	g.ag.cancel()
 	g.ag.next.Stop()
+}
+
+// VerifProcessedAlerts returns how many routeAlert calls have completed (the
+// sample count of the processing-duration summary, observed at the end of
+// routeAlert), so the harness can wait for the ingestion workers to drain.
+func (d *Dispatcher) VerifProcessedAlerts() uint64 {
+	var m dto.Metric
+	if err := d.metrics.processingDuration.Write(&m); err != nil {
+		return 0
+	}
+	return m.GetSummary().GetSampleCount()
 }
